@@ -584,7 +584,14 @@ func checkEOFCondition(c *Ctx, fn *ssa.Function, call *ssa.Call, rule, name stri
 				}
 			}
 		}
-		if stripConv(cmp.X) == ssa.Value(nEx) {
+		isCount := stripConv(cmp.X) == ssa.Value(nEx)
+		// len(buf[:n]) is n
+		if lc, ok := cmp.X.(*ssa.Call); ok && builtinName(&lc.Call) == "len" && len(lc.Call.Args) == 1 {
+			if sl, ok := lc.Call.Args[0].(*ssa.Slice); ok && sl.Low == nil && sl.High != nil && stripConv(sl.High) == ssa.Value(nEx) {
+				isCount = true
+			}
+		}
+		if isCount {
 			if k, ok := constInt(cmp.Y); ok && k == 0 {
 				return tNZero, cmp.Op == token.EQL, cmp.Op == token.EQL || cmp.Op == token.NEQ
 			}
@@ -1063,6 +1070,7 @@ func checkMemFSNameIndex(c *Ctx, rule string) {
 // it by ListAt's own count exactly once, emits finfo[:n] and answers STATUS exactly when there is nothing to deliver.
 func checkListingCursor(c *Ctx) {
 	p := c.P
+	directOK := map[*ssa.Store]bool{}
 	pos := func(in ssa.Instruction) string { return p.Pos(in.Pos()) }
 	_ = pos
 	// ---------- R1 request server cursor ----------
@@ -1073,15 +1081,47 @@ func checkListingCursor(c *Ctx) {
 		lsNext := callsWhere(fl, func(cc *ssa.CallCommon) bool { return calleeName(cc) == "lsNext" })
 		listAt := callsWhere(fl, func(cc *ssa.CallCommon) bool { return cc.IsInvoke() && cc.Method.Name() == "ListAt" })
 		lsInc := callsWhere(fl, func(cc *ssa.CallCommon) bool { return calleeName(cc) == "lsInc" })
-		if len(lsNext) != 1 || len(listAt) != 1 {
+		// the cursor is read through lsNext or, when that accessor has been folded into filelist, straight from the field;
+		// likewise it is advanced through lsInc or by a store of cursor + amount
+		isCursorField := func(addr ssa.Value) bool {
+			t, n, _, ok := fieldOf(addr)
+			return ok && n == "lsoffset" && typeName(t) == "state"
+		}
+		var directReads []ssa.Instruction
+		var directIncs []*ssa.Store
+		eachInstr(fl, func(in ssa.Instruction) {
+			switch x := in.(type) {
+			case *ssa.UnOp:
+				if x.Op == token.MUL && isCursorField(x.X) {
+					directReads = append(directReads, x)
+				}
+			case *ssa.Store:
+				if isCursorField(x.Addr) {
+					directIncs = append(directIncs, x)
+				}
+			}
+		})
+		if len(listAt) != 1 || (len(lsNext) != 1 && !(len(lsNext) == 0 && len(directReads) > 0)) {
 			c.bad("R1", "filelist shape", p.Pos(fl.Pos()), fmt.Sprintf("%d lsNext and %d ListAt calls (expected 1 and 1)", len(lsNext), len(listAt)))
 		} else {
 			la := listAt[0].(*ssa.Call)
 			// offset argument is the cursor just read
 			okOff := false
 			for _, l := range leavesOf(la.Call.Args[1]) {
-				if l.Kind == leafCallResult && l.CallIn == lsNext[0] {
+				if l.Kind == leafCallResult && len(lsNext) == 1 && l.CallIn == lsNext[0] {
 					okOff = true
+				}
+				if l.Kind == leafFieldLoad && l.Field == "lsoffset" && len(lsNext) == 0 {
+					// read before the call, and not advanced in between
+					if ld, isLd := l.V.(ssa.Instruction); isLd && dominates(ld, la) {
+						adv := false
+						for _, st := range directIncs {
+							if reachAvoiding(fl, ld, func(in ssa.Instruction) bool { return in == ssa.Instruction(st) }, func(in ssa.Instruction) bool { return in == ssa.Instruction(la) }) {
+								adv = true
+							}
+						}
+						okOff = !adv
+					}
 				}
 			}
 			c.check(okOff && len(leavesOf(la.Call.Args[1])) == 1, "R1", "ListAt at the cursor", pos(la), "ListAt(buf, r.lsNext())", "ListAt is not called at the handle's current cursor: entries are repeated or skipped")
@@ -1100,6 +1140,9 @@ func checkListingCursor(c *Ctx) {
 			// lsInc exactly once after ListAt on every path, with ListAt's own count
 			nKey := fmt.Sprintf("%s#0", valKey(la))
 			isInc := func(in ssa.Instruction) bool {
+				if st, isSt := in.(*ssa.Store); isSt && isCursorField(st.Addr) {
+					return true
+				}
 				cc := callOf(in)
 				_, plain := in.(*ssa.Call)
 				return plain && cc != nil && calleeName(cc) == "lsInc"
@@ -1109,6 +1152,18 @@ func checkListingCursor(c *Ctx) {
 			for _, inc := range lsInc {
 				t := affineOf(argsOf(callOf(inc))[0])
 				c.check(len(t.coef) == 1 && t.coef[nKey] == 1 && t.c == 0, "R1", "cursor advanced by ListAt's count", pos(inc), "lsInc(int64(n))", "the cursor advances by "+t.String()+", not by the number of entries ListAt returned: a lister that returns a short batch loses or repeats entries")
+			}
+			for _, st := range directIncs {
+				// cursor = cursor + n: the stored value is the cursor's own load plus ListAt's count
+				t := affineOf(st.Val)
+				own := 0
+				for a, k := range t.coef {
+					if ld, isLd := t.atoms[a].(*ssa.UnOp); isLd && ld.Op == token.MUL && isCursorField(ld.X) && k == 1 && sameValue(ld.X.(*ssa.FieldAddr).X, st.Addr.(*ssa.FieldAddr).X) {
+						own++
+					}
+				}
+				c.check(len(t.coef) == 2 && own == 1 && t.coef[nKey] == 1 && t.c == 0, "R1", "cursor advanced by ListAt's count", pos(st), "lsoffset += int64(n)", "the cursor becomes "+t.String()+", not itself plus the number of entries ListAt returned: a lister that returns a short batch loses or repeats entries")
+				directOK[st] = true
 			}
 			// entries: range over finfo[:n]
 			okRange := false
@@ -1159,6 +1214,18 @@ func checkListingCursor(c *Ctx) {
 			continue
 		}
 		good := fnName(a.Fn) == "(*state).lsInc"
+		if !good {
+			// filelist's own advance, checked above
+			for _, r := range *a.In.(ssa.Value).Referrers() {
+				if st, ok := r.(*ssa.Store); ok && directOK[st] {
+					good = true
+				}
+			}
+			if good {
+				c.ok("R1", "write of lsoffset in "+fnName(a.Fn), pos(a.In), "filelist advances the cursor itself, by ListAt's count")
+				continue
+			}
+		}
 		if good {
 			for _, r := range *a.In.(ssa.Value).Referrers() {
 				if st, ok := r.(*ssa.Store); ok {
